@@ -44,6 +44,13 @@ def blank_sources():
         out.append((f"itemscommentb{k}", f"fn a() {{}}{gap}// note\nfn b() {{}}\n"))
         out.append((f"stmtscomment{k}", f"fn a() {{\n    let x = 1;\n    // note\n{gap[1:]}    let y = 2;\n}}\n"))
         out.append((f"stmtscommentb{k}", f"fn a() {{\n    let x = 1;{gap}    // note\n    let y = 2;\n}}\n"))
+        # two groups of line comments between two ELEMENTS OF A LIST, k+1 line feeds apart: inside a
+        # field, variant, arm or argument list there is never more than one blank line
+        cc = f"    // group one\n{gap[1:]}    // group two\n"
+        out.append((f"listcomment_fields{k}", f"struct S {{\n    a: u32,\n{cc}    b: u32,\n}}\n"))
+        out.append((f"listcomment_variants{k}", f"enum E {{\n    A,\n{cc}    B,\n}}\n"))
+        out.append((f"listcomment_params{k}", f"fn a(\n    x: u32,\n{cc}    y: u32,\n) {{\n}}\n"))
+        out.append((f"listcomment_arms{k}", f"fn a(x: u32) {{\n    match x {{\n        1 => 2,\n    {cc.replace(chr(10) + '    //', chr(10) + '        //')}        _ => 3,\n    }}\n}}\n"))
         # leading lines that hold only blanks, before the first token or comment
         out.append((f"leadsp{k}", "\n" * (k % 3) + "  \n" * (1 + k % 2) + "fn a() {}\n"))
         out.append((f"leadtab{k}", "\t\n" + "\n" * (k % 3) + "// c\nfn a() {}\n"))
@@ -199,6 +206,8 @@ def run(tier, seed, replay=None):
             wrecs.append({"style": style, "hard_tabs": bool(opts.get("hard_tabs", False)),
                           "upper": int(opts.get("blank_lines_upper_bound", 1)),
                           "strict": bool(j["_meta"]["gen"]) and "comment" in j["_meta"]["name"],
+                          "listdepth": (2 if "arms" in j["_meta"]["name"] else 1)
+                          if j["_meta"]["name"].startswith("listcomment_") else -1,
                           "nonempty": ws["nonempty"], "lead_blank": ws["lead_blank"],
                           "final_nl": ws["final_nl"], "crlf": ws["crlf"], "lf": ws["lf"],
                           "lines": o["lines"]})
